@@ -181,6 +181,8 @@ func appendGrows(st *ssa.Store) bool {
 }
 
 func runC02(p *Prog, r *Report) {
+	// R10: the error handler that answers for an empty / all-zero pool is non-nil whatever options were given
+	checkErrHandlerDefaulted(p, r, "C02.R10", map[string]bool{"roundrobin": true})
 	pools := c02Pools(p, r)
 	r.Floor("C02.R1", len(pools), 2, "pools (balancer, rebalancer shadow list)")
 	c02UpsertRemove(p, r, pools)
@@ -275,6 +277,21 @@ func c02UpsertRemove(p *Prog, r *Report, pools []poolInfo) {
 				}
 				r.Check(ok, "C02.R1", what, p.InstrPos(st), "the append is unreachable once the not-found edge(s) of the lookup are deleted",
 					"the append is reachable on the found edge of the identity lookup: upserting a known server adds a second record for it (a later remove leaves the duplicate behind and the removed server keeps receiving traffic)")
+				// "missed" must still be true when the record is appended: no lock is released between the lookup
+				// and the append (two concurrent adds of one unknown server would both miss and both append)
+				for _, lt := range lts {
+					var rel ssa.Instruction
+					for in := range Reach(fn, lt.call, func(x ssa.Instruction) bool { return x == ssa.Instruction(st) }, nil) {
+						if c, ok := in.(*ssa.Call); ok {
+							if o := calleeObj(c.Common()); o != nil && o.Pkg() != nil && o.Pkg().Path() == "sync" && (o.Name() == "Unlock" || o.Name() == "RUnlock") && Reach(fn, in, nil, nil)[st] {
+								rel = in
+							}
+						}
+					}
+					r.Paths++
+					r.Check(rel == nil, "C02.R1", pl.name+": lookup and append form one critical section, in "+FName(fn), p.InstrPos(st), "no Unlock between the identity lookup and the append",
+						"a lock is released between the identity lookup and the append"+atInstr(p, rel)+": two concurrent adds of the same unknown server both miss the lookup and both append — the server is in the pool twice and survives one RemoveServer")
+				}
 			} else {
 				nRem++
 				what := pl.name + ": removal in " + FName(fn)
@@ -599,18 +616,29 @@ func c02EmptyPool(p *Prog, r *Report) {
 			continue
 		}
 		kind := ""
+		errK := 0 // the edge on which the pool is empty / the level is zero
+		e0 := ParseLin("len(fld(p0)."+ri.poolF+")", "==")
+		g0 := ParseLin("len(fld(p0)."+ri.poolF+")", ">")
 		switch {
-		case cmp.Equal(ParseLin("len(fld(p0)."+ri.poolF+")", "==")):
+		case cmp.Equal(e0):
+			kind = "empty pool"
+		case cmp.Equal(e0.Negate()) || cmp.Implies(g0):
+			// len != 0, len > 0, len >= 1: the pool is empty on the false edge
+			kind, errK = "empty pool", 1
+		case cmp.Negate().Implies(g0):
+			// len < 1, len <= 0
 			kind = "empty pool"
 		case cmp.Op == "==" && cmp.Mentions("fld(p0)."+ri.cwF) && len(cmp.D.P) == 1:
 			kind = "zero maximum weight"
+		case cmp.Op == "!=" && cmp.Mentions("fld(p0)."+ri.cwF) && len(cmp.D.P) == 1:
+			kind, errK = "zero maximum weight", 1
 		}
 		if kind == "" {
 			continue
 		}
-		// on the true edge every return carries a nil server and a non-nil error
+		// on that edge every return carries a nil server and a non-nil error
 		okE := true
-		for in := range Reach(fn, ifi, nil, func(x Edge) bool { return !(x.B == b && x.K == 1) }) {
+		for in := range Reach(fn, ifi, nil, func(x Edge) bool { return !(x.B == b && x.K == 1-errK) }) {
 			if ret, ok := in.(*ssa.Return); ok {
 				isNil, known := returnErrIsNil(ret, 1)
 				if !isNilConst(ReturnOperand(ret, 0)) || !known || isNil {
@@ -620,7 +648,7 @@ func c02EmptyPool(p *Prog, r *Report) {
 			// only consider the straight error block: stop at the first return
 		}
 		// restrict to the immediate successor block
-		imm := b.Succs[0]
+		imm := b.Succs[errK]
 		if ret, ok := imm.Instrs[len(imm.Instrs)-1].(*ssa.Return); ok {
 			isNil, known := returnErrIsNil(ret, 1)
 			okE = isNilConst(ReturnOperand(ret, 0)) && known && !isNil
@@ -902,6 +930,33 @@ func c02Ownership(p *Prog, r *Report, pools []poolInfo) {
 		}
 	}
 	r.Floor("C02.R5", ni, 2, "record URL initialisations")
+	// a member's URL is its identity: once copied into the record it is never edited (the lookups compare the
+	// caller's spelling with the stored one; a "normalised" stored URL is no longer found and is added twice)
+	if sp := p.Pkg("roundrobin"); sp != nil {
+		var bad ssa.Instruction
+		nf := 0
+		for _, fn := range p.ModuleFuncs() {
+			if fn.Pkg != sp && (fn.Parent() == nil || fn.Parent().Pkg != sp) {
+				continue
+			}
+			nf++
+			for _, b := range fn.Blocks {
+				for _, in := range b.Instrs {
+					st, ok := in.(*ssa.Store)
+					if !ok {
+						continue
+					}
+					if un, _, base, ok := fieldOf(st.Addr); ok && un != nil && un.Obj().Pkg() != nil && un.Obj().Pkg().Path() == "net/url" && un.Obj().Name() == "URL" {
+						if _, fresh := base.(*ssa.Alloc); !fresh {
+							bad = in
+						}
+					}
+				}
+			}
+		}
+		r.Check(bad == nil, "C02.R5", "roundrobin: a URL object is never edited in place", "-", fmt.Sprintf("no store into a field of a url.URL in the %d functions of the package", nf),
+			"a field of a url.URL that is not a fresh local is written"+atInstr(p, bad)+": a member's stored URL (its identity for lookups, removal and the sticky cookie) or a URL shared with the caller is modified")
+	}
 	// CopyURL really copies: returns the address of a fresh struct
 	if cu := p.Func("utils", "CopyURL"); cu != nil {
 		okc := true
@@ -917,6 +972,8 @@ func c02Ownership(p *Prog, r *Report, pools []poolInfo) {
 func mutantsC02() []Mutant {
 	rr, rb := "roundrobin/rr.go", "roundrobin/rebalancer.go"
 	return []Mutant{
+		{Name: "rr-errhandler-default-before-options", File: "roundrobin/rr.go", Old: "\tif rr.errHandler == nil {\n\t\trr.errHandler = utils.DefaultHandler\n\t}\n", New: "", More: []Edit{{"roundrobin/rr.go", "\t\tlog: &utils.NoopLogger{},\n\t}\n\tfor _, o := range opts {\n\t\tif err := o(rr)", "\t\tlog: &utils.NoopLogger{},\n\n\t\terrHandler: utils.DefaultHandler,\n\t}\n\tfor _, o := range opts {\n\t\tif err := o(rr)"}}, Expect: "C02.R10"},
+		{Name: "rr-upsert-unlocks-between-lookup-and-append", File: "roundrobin/rr.go", Old: "\tsrv := &server{url: utils.CopyURL(u)}\n", New: "\tr.mutex.Unlock()\n\tsrv := &server{url: utils.CopyURL(u)}\n\tr.mutex.Lock()\n", Expect: "C02.R1"},
 		{Name: "rr-upsert-found-falls-through", File: rr, Old: "\t\tr.resetState()\n\t\treturn nil\n\t}\n\n\tsrv := &server{url: utils.CopyURL(u)}", New: "\t\tr.resetState()\n\t}\n\n\tsrv := &server{url: utils.CopyURL(u)}", Expect: "C02.R1"},
 		{Name: "rb-upsert-duplicate", File: rb, Old: "\t\ts.origWeight = weight\n\t\treturn nil\n\t}", New: "\t\ts.origWeight = weight\n\t}", Expect: "C02.R1"},
 		{Name: "record-url-uncopied", File: rr, Old: "srv := &server{url: utils.CopyURL(u)}", New: "srv := &server{url: u}", Expect: "C02.R5"},
@@ -1024,4 +1081,11 @@ func c02Options(p *Prog, r *Report) {
 		}
 	}
 	r.Floor("C02.R9", nDef, 1, "default-weight stores")
+}
+
+func atInstr(p *Prog, in ssa.Instruction) string {
+	if in == nil {
+		return ""
+	}
+	return " (at " + p.InstrPos(in) + ")"
 }
